@@ -53,3 +53,22 @@ Example C19_accepts_somewhere :
     ([[(0,0);(10,0);(10,10);(0,10)]] ++ [[(5,5);(15,5);(15,15);(5,15)]])%Z []
     [0; 5; 10; 15]%Q = true.
 Proof. vm_compute. reflexivity. Qed.
+
+(* ---- wrapper clause (K3): from the wrapper terms regenerated from /repo's current
+   source: UnionPaths64 of a single set is the union with NO clip set, and the four
+   *WithClip wrappers are BooleanOpPaths64 with the corresponding clip type ---- *)
+From Coq Require Import String.
+From Clip Require Import Model.WrapperIR Gen.Wrappers_gen Props.C07.
+Open Scope string_scope.
+Theorem C19_wrappers :
+  RZ "UnionPaths64" [S; fr] = RZ "BooleanOpPaths64" [VSym "Union"; S; VNil; fr] /\
+  RZ "UnionWithClipPaths64" [S; C; fr] = RZ "BooleanOpPaths64" [VSym "Union"; S; C; fr] /\
+  RZ "IntersectWithClipPaths64" [S; C; fr] = RZ "BooleanOpPaths64" [VSym "Intersection"; S; C; fr] /\
+  RZ "DifferenceWithClipPaths64" [S; C; fr] = RZ "BooleanOpPaths64" [VSym "Difference"; S; C; fr] /\
+  RZ "XorWithClipPaths64" [S; C; fr] = RZ "BooleanOpPaths64" [VSym "Xor"; S; C; fr].
+Proof. split; [|split; [|split; [|split]]]; vm_compute; reflexivity. Qed.
+(* and with no clip set only the subject is ever handed to the engine *)
+Theorem C19_union_without_clip_adds_only_subject :
+  RZ "UnionPaths64" [S; fr] =
+  VApp "execute.out#002" [VApp "addPaths" [VApp "newClipperBase" []; S; VSym "Subject"; VBool false]; VSym "Union"; fr; VSym "_"; VSym "_"].
+Proof. vm_compute. reflexivity. Qed.
